@@ -15,6 +15,9 @@ is a violation only if flagged again with the same sign.
 Workloads added after the seeded-change rounds: a coarse-step Hamiltonian run in which
 most proposals are rejected, and a grand-canonical ideal gas next to a framework of
 non-exchanged atoms (negative labels).
+Further workloads: an isobaric run on a left-handed cell, one whose moves are handed to the driver's constructor with
+molecular / frozen labels, a grand-canonical run whose state point is re-assigned live.  An average that is off by more
+than a factor of three in every chain on the same side is flagged (and re-measured) whatever its z-score.
 """
 from __future__ import annotations
 
